@@ -1,11 +1,71 @@
 # Table consumed by mkmanifest.py. Keep in step with DESIGN.md section 4.
-NOT_BUILT = "no contract-level check has been built for this property yet (work in progress); not claimed"
+COMMON_NOTE = ("Trusted: go/ssa front end, gocv's semantics of the Go subset, the SMT solvers, mathematical integers, "
+               "uninterpreted float arithmetic, assumed contracts of dependencies (specs/*.spec, listed in the evidence), "
+               "sync.Pool ownership discipline. Goroutine scheduling and channel protocols (exchange.concurrencyOperator, "
+               "coalesce.Next, worker) are outside the verified subset. ")
 
+claim("C01",
+      "Proof of the listed obligations (partial for the property): Exec's result assembly (points of every batch are kept, result type, stamping), plan construction (every operator is built from its node's own parameters, children in order, windows and options passed unchanged), plus the per-operator obligations tagged C01. Composition over whole expression trees is argued in DESIGN.md, not machine-checked.",
+      COMMON_NOTE + "Equality with the reference engine on every expression tree is not decided; float values only up to uninterpreted arithmetic.",
+      "DESIGN.md 4 C01")
 claim("C02",
-      "Proof of the listed obligations: selectPoint's functional contract (latest sample at or before ts-offset, present iff within lookback and not stale, both directions), the shard partition/re-signing contract of seriesShard, for all inputs; discharged by SMT from the real SSA.",
-      "Assumes the ghost-series contract of storage.MemoizedSeriesIterator (specs/10_iterators.spec), mathematical integers, gocv's Go semantics. Not covered: goroutine scheduling in coalesce/concurrent operators.",
+      "Proof of the listed obligations: selectPoint's functional contract (latest sample at or before ts-offset, present iff within lookback and not stale, both directions), the shard partition/re-signing contract, selector construction from the query options, per-query lookback routing, window arithmetic of getTimeRangesForVectorSelector; for all inputs.",
+      COMMON_NOTE + "Assumes the ghost-series contract of storage.MemoizedSeriesIterator (specs/10_iterators.spec).",
       "DESIGN.md 4 C02")
+claim("C06",
+      "Proof of the listed obligations (partial): number literals deliver one sample with the literal value at every step of any window; step-invariant children are planned on the single-step grid; scalar streams keep the points of all batches in Exec; function/negation operators receive the node's arguments.",
+      COMMON_NOTE + "Value rules of the individual instant functions are not yet under contract.",
+      "DESIGN.md 4 C06")
+claim("C07",
+      "Proof of the listed obligations: NumSteps, the step grid of leaf operators (first step = cursor, one vector per step, none beyond the window end, maximal batches, cursor advance), windows passed unchanged through plan construction, Exec keeps every batch.",
+      COMMON_NOTE + "The law itself is a corollary argued in DESIGN.md from these obligations; stateful operators not yet under contract are not covered.",
+      "DESIGN.md 4 C07")
+claim("C08",
+      "Proof: every error of plan construction is classified unsupported/not-implemented (or remote), for every node kind and function name symbolically; triggerFallback is exactly that classification; NewInstantQuery/NewRangeQuery pass the very same arguments to the Prometheus engine, bump the counter once with the path taken, and reject at creation when fallback is disabled.",
+      COMMON_NOTE + "That natively supported constructs are evaluated exactly is C01-C07, not decided here.",
+      "DESIGN.md 4 C08")
+claim("C10",
+      "Proof of the listed obligations (partial): remote results are re-read as the identity (lookback 0, offset 0, one shard, same grid), remote queries are issued on the query's window and step.",
+      COMMON_NOTE + "Commutation of the distributed rewrite with union over partitions is not decided.",
+      "DESIGN.md 4 C10")
+claim("C11",
+      "Proof of the listed obligations (partial): the shard count is at least one, shards partition the series list for every count and index, every shard gets the same selector/options/offset.",
+      COMMON_NOTE + "Independence of goroutine interleavings and storage order is not decidable by contracts.",
+      "DESIGN.md 4 C11")
+claim("C12",
+      "Proof of the listed obligations (partial): frame conditions - the functions under contract on the query path write only memory allocated by the query (or the fields named in their assigns clause); no engine-level or package-level state is written; pools and selector pools are allocated per query.",
+      COMMON_NOTE + "Data-race freedom between the goroutines of one query is not decidable by contracts.",
+      "DESIGN.md 4 C12")
+claim("C13",
+      "Proof for the functions under contract: every implicit panic site (index, nil, division, conversion, type assertion, make) is discharged under the function's precondition; explicit panics are unreachable or recovered; recoverEngine turns every recovered panic into the query error and Exec always returns a result.",
+      COMMON_NOTE + "Goroutine entry points without recover (concurrencyOperator.pull, coalesce, worker) are not covered.",
+      "DESIGN.md 4 C13")
+claim("C15",
+      "Proof of the listed obligations: iterator failures surface from selectPoint, Exec records the first error and reports success only after the stream signalled its end; newErrResult keeps the first error.",
+      COMMON_NOTE + "Error hand-off through channels is assumed.",
+      "DESIGN.md 4 C15")
+claim("C16",
+      "Proof: hints handed to each sub-expression and each storage select follow the reference's path rules (function hint from the nearest enclosing call/aggregation, cut at binary expressions; grouping only for the direct operand of an aggregation), time ranges equal the reference arithmetic, matchers/step/range are the node's; selected samples lie within the hinted range.",
+      COMMON_NOTE + "The reference rules are a transcription of promql/engine.go (trusted).",
+      "DESIGN.md 4 C16")
+claim("C17",
+      "Proof of the listed obligations (partial): constructors do not touch the storage; shards are fresh copies (the shared series list is not written).",
+      COMMON_NOTE + "Close-exactly-once of queriers and label ownership of every operator are not yet under contract.",
+      "DESIGN.md 4 C17")
+claim("C18",
+      "Proof of the listed obligations (partial): the stream contract for the leaf operators under contract (batch size, one vector per step in increasing order, ids/values of equal length, end of stream), never a stale value out of selectPoint.",
+      COMMON_NOTE + "Operators not yet under contract are not covered; concurrent Next calls are a scheduling question.",
+      "DESIGN.md 4 C18")
+claim("C19",
+      "Proof: Exec returns a sorted matrix without empty series for range queries, the expression's type for instant queries with every sample stamped with the evaluation time; selectPoint never yields a staleness marker.",
+      COMMON_NOTE + "Pairwise-distinct label sets and sortedness of each operator's label sets are not decided.",
+      "DESIGN.md 4 C19")
+claim("C20",
+      "Proof: the returned points live in memory allocated by Exec; the functions under contract write no engine-level or package-level state (frame conditions); selector pool and vector pools are created per query.",
+      COMMON_NOTE + "The embedded Prometheus engine and the metrics registry are assumed stateless for queries.",
+      "DESIGN.md 4 C20")
 
-for pid in ["C01","C03","C04","C05","C06","C07","C08","C09","C10","C11","C12","C13","C15","C16","C17","C18","C19","C20"]:
+NOT_BUILT = "no contract-level check has been built for this property yet (work in progress); not claimed"
+for pid in ["C03","C04","C05","C09"]:
     NA[pid] = NOT_BUILT
 NA["C14"] = "liveness/schedule property (bounded-time return, deadlock freedom, goroutine termination): no pre/postcondition or invariant of a sequential contract expresses it and gocv has no concurrency model"
